@@ -2,6 +2,7 @@ package main
 
 import (
 	"fmt"
+	"os"
 	"strconv"
 	"strings"
 
@@ -144,6 +145,11 @@ func (e *env) tensorCall(f func() (T, error)) outcome {
 // randCall implements the Randomness section: seed, K uniform raws, seed, K normal raws, seed, run.
 func (e *env) randCall(k int, f func() error) (string, string) {
 	h := e.h
+	if e.direct && os.Getenv("HARNESS_NO_RAW") != "" {
+		// concurrency runs: call the random constructor without serialising or re-seeding, so that
+		// goroutines really draw from gonum's global source at the same time; no raw payload
+		return e.guard(f), ""
+	}
 	if e.direct {
 		h.rngMu.Lock()
 		defer h.rngMu.Unlock()
